@@ -10,10 +10,15 @@ contract("pint.util:to_units_container",
              {"_name": "string", "unit_like": "Str",
               "_ensures": {"parsed": "fresh(result) and keys(result._d) == ParsedKeys(unit_like) and vals(view(result)) == ParsedVals(unit_like)"}},
              {"_name": "container", "unit_like": "Ref[UnitsContainer]", "_ensures": {"identity": "result == unit_like"}},
+             {"_name": "empty_dict", "unit_like": "Opaque", "registry": "Ref[GenericPlainRegistry]",
+              "_ensures": {"dimensionless": "fresh(result) and wf(result) and names_ok(result) and exact_class(result, 'UnitsContainer') "
+                                            "and dims_ok(result, registry) and AllMult(registry, result) "
+                                            "and forall[Str](lambda q: view(result)[q] == 0)"}},
          ],
          modifies=[], trusted=True,
          note="string branch: ParserHelper.from_string / registry.parse_units_as_container (the parser, C07/C08); "
-              "a UnitsContainer is returned as it is (`if UnitsContainer in type(unit_like).mro(): return unit_like`)",
+              "a UnitsContainer is returned as it is (`if UnitsContainer in type(unit_like).mro(): return unit_like`); the only "
+              "dict passed by verified callers is the literal {} (registry.UnitsContainer({}): the dimensionless container)",
          props=["C17", "C02"])
 
 contract("pint.registry_helpers:_to_units_container",
